@@ -4,11 +4,19 @@ Model driver for C09 (worker pool).  One script per line, one result line per sc
   run <repaired:0|1> <nworkers> <rcspec> <choice>*     → snapshots joined by " | " (first = initial state)
   serial <rcspec> <op>*                                 → API return values of the serial pool model
   monitor <submitted> <startedTickets> <returned>       → `ok` or the list of failing clauses
+  frun <repaired:0|1> <nworkers> <rcspec> <choice>*    → the same at lock/unlock granularity (Model/C09PoolFine.lean; base calls only)
+  ctxmon <events>                                       → `ok` | `undisciplined` | `violated ctx`   (Spec/C09PoolX.lean)
+  apimon <rcspec> <rets> <op>*                          → `ok` | `violated api`  (rets as printed by `serial`)
+
+`run` executes the *extended* model (Model/C09PoolX.lean: user pointers, set_worker_ptr, calloc failure); before
+the script it performs, unprinted, `set_worker_ptr(i, i+1)` for every worker — exactly the set-up of harness/h_c09.c.
 
   rcspec : "-" or "d:rc,d:rc,…"  (callback return value by item; default 0)
-  choice : s<d> q g x (main makes the call)   m / M (main continues / wakes spuriously)
+  choice : s<d> q g x p<i>:<ptr> o<d> (main makes the call; p = set_worker_ptr(i, ptr), ptr 0 = NULL; o = submit
+           with a failing calloc)   m / M (main continues / wakes spuriously)
            w<i> / W<i> (worker i continues / wakes spuriously)
-  op     : s<d> q g x
+  op     : s<d> q g x  (enum / rand additionally: p<i>:<ptr> o<d>)
+  events : "-" or comma separated  P<i>:<ptr>  E<w>:<ptr>:<d>  L<w>  O<d>
   lists  : "-" or comma separated naturals
 
 `sqfsmodel c09 rand <repaired> <nworkers> <rcspec> <seed> <count> <pSwitch%> <pSpur%> <op>*` prints `count` random
@@ -21,6 +29,8 @@ last line is `#paths <n> complete|truncated`).
 -/
 import Driver.Util
 import Sqfs.Spec.Pool
+import Sqfs.Spec.C09PoolX
+import Sqfs.Model.C09PoolFine
 namespace Driver.C09
 open Sqfs.Pool
 
@@ -56,20 +66,32 @@ def showRet : Ret → String
   | .status rc => s!"st:{rc}"
   | .destroyed => "destroyed"
 
-def enabledList (s : State) : List String :=
-  (if mainContEnabled s then ["m"] else []) ++
-  ((List.range s.workers.length).filter (workerEnabled s)).map (fun i => s!"w{i}")
+def xenabledList (xs : XState) : List String :=
+  (if xmainContEnabled xs then ["m"] else []) ++
+  ((List.range xs.base.workers.length).filter (workerEnabled xs.base)).map (fun i => s!"w{i}")
 
-/-- snapshot of a state; `ret` is the API return value produced by the step that led here -/
-def snapshot (s : State) (ret : Option Ret) : String :=
-  let r := match ret with | none => "-" | some x => showRet x
-  let ws := commaList (s.workers.map showW)
+def showWX (xs : XState) (i : Nat) (pc : WPc) : String :=
+  match pc with
+  | .working it => s!"work:{it.data}@{xs.ctxAt.getD i 0}"
+  | pc => showW pc
+
+def showEvent : XEvent → String
+  | .setPtr i p => s!"P{i}:{p}"
+  | .enter w p d => s!"E{w}:{p}:{d}"
+  | .leave w => s!"L{w}"
+  | .oom d => s!"O{d}"
+
+/-- snapshot of a state; `ret` is what the step that led here returned to the caller ("-": nothing) -/
+def snapshot (xs : XState) (ret : String) : String :=
+  let s := xs.base
+  let ws := commaList ((List.range s.workers.length).map fun i => showWX xs i (s.workers.getD i .exited))
   if s.main = .finished then
-    s!"destroyed m=finished w={ws} r={r}"
+    s!"destroyed m=finished w={ws} r={ret}"
   else
+    let m := match xs.setPtr with | some (i, p) => s!"setPtrLock:{i}:{p}" | none => showM s.main
     s!"Q={showItems s.queue} D={showItems s.done} S={showItems s.safeDone} nt={s.nextTicket} nd={s.nextDeq} " ++
-    s!"ic={s.itemCount} st={s.status} rec={s.recycle} m={showM s.main} w={ws} r={r} " ++
-    s!"en={commaList (enabledList s)} dl={b01 (isDeadlock s)}"
+    s!"ic={s.itemCount} st={s.status} rec={s.recycle} U={commaList (xs.users.map toString)} m={m} w={ws} r={ret} " ++
+    s!"en={commaList (xenabledList xs)} dl={b01 (xisDeadlock xs)}"
 
 def parseInt (t : String) : Option Int :=
   if t.startsWith "-" then (t.drop 1).toString.toNat?.map (fun n => - (n : Int)) else t.toNat?.map (fun n => (n : Int))
@@ -93,12 +115,31 @@ def parseOp (t : String) : Option Op :=
   else if t.startsWith "s" then (t.drop 1).toString.toNat?.map .submit
   else none
 
-def parseChoice (t : String) : Option Choice :=
-  if t = "m" then some (.main (.cont false))
-  else if t = "M" then some (.main (.cont true))
-  else if t.startsWith "w" then (t.drop 1).toString.toNat?.map (.worker · false)
-  else if t.startsWith "W" then (t.drop 1).toString.toNat?.map (.worker · true)
-  else (parseOp t).map (fun o => .main (.call o))
+/-- API calls of the extended model -/
+inductive AOp where
+  | base (o : Op)
+  | setPtr (i p : Nat)
+  | oom (d : Nat)
+
+def AOp.choice : AOp → XChoice
+  | .base o => .base (.main (.call o))
+  | .setPtr i p => .setPtr i p
+  | .oom d => .submitOom d
+
+def parseAOp (t : String) : Option AOp :=
+  if t.startsWith "p" then
+    match (t.drop 1).toString.splitOn ":" with
+    | [a, b] => do let i ← a.toNat?; let p ← b.toNat?; pure (.setPtr i p)
+    | _ => none
+  else if t.startsWith "o" then (t.drop 1).toString.toNat?.map .oom
+  else (parseOp t).map .base
+
+def parseChoice (t : String) : Option XChoice :=
+  if t = "m" then some (.base (.main (.cont false)))
+  else if t = "M" then some (.base (.main (.cont true)))
+  else if t.startsWith "w" then (t.drop 1).toString.toNat?.map (fun i => .base (.worker i false))
+  else if t.startsWith "W" then (t.drop 1).toString.toNat?.map (fun i => .base (.worker i true))
+  else (parseAOp t).map AOp.choice
 
 def showOp : Op → String
   | .submit d => s!"s{d}"
@@ -106,31 +147,112 @@ def showOp : Op → String
   | .getStatus => "g"
   | .destroy => "x"
 
-def showChoice : Choice → String
-  | .main (.call o) => showOp o
-  | .main (.cont false) => "m"
-  | .main (.cont true) => "M"
-  | .worker i false => s!"w{i}"
-  | .worker i true => s!"W{i}"
+def showChoice : XChoice → String
+  | .base (.main (.call o)) => showOp o
+  | .base (.main (.cont false)) => "m"
+  | .base (.main (.cont true)) => "M"
+  | .base (.worker i false) => s!"w{i}"
+  | .base (.worker i true) => s!"W{i}"
+  | .setPtr i p => s!"p{i}:{p}"
+  | .submitOom d => s!"o{d}"
 
 def parseNatList (t : String) : Option (List Nat) :=
   if t = "-" then some [] else (t.splitOn ",").mapM (·.toNat?)
 
-def runScript (cfg : Cfg) (n : Nat) (cs : List Choice) : String :=
-  let rec go (s : State) (cs : List Choice) (acc : List String) : List String :=
+/-- state after `thread_pool_create` and the harness's set-up calls `set_worker_ptr(i, &ctxs[i])` (pointer `i+1`) -/
+def xinitSetup (cfg : Cfg) (n : Nat) : XState :=
+  xrun cfg (xinit n) ((List.range n).flatMap fun i => [XChoice.setPtr i (i + 1), .base (.main (.cont false))])
+
+/-- what a step returned to the API caller, if anything -/
+def stepRet (xs xs' : XState) (c : XChoice) : String :=
+  if xs'.base.rets.length > xs.base.rets.length then
+    match xs'.base.rets.getLast? with | some x => showRet x | none => "-"
+  else if xs.setPtr.isSome && xs'.setPtr.isNone then "set"
+  else match c with
+    | .setPtr _ _ => if xs'.setPtr.isNone then "set" else "-"
+    | .submitOom _ => if xs'.base.main = .idle then "sub:-1" else "-"
+    | _ => "-"
+
+def runScript (cfg : Cfg) (n : Nat) (cs : List XChoice) : String :=
+  let rec go (xs : XState) (cs : List XChoice) (acc : List String) : List String × XState :=
     match cs with
-    | [] => acc.reverse
+    | [] => (acc.reverse, xs)
     | c :: r =>
-      match step cfg s c with
-      | none => go s r ("ne" :: acc)
-      | some s' =>
-        let ret := if s'.rets.length > s.rets.length then s'.rets.getLast? else none
-        go s' r (snapshot s' ret :: acc)
-  let s0 := init n
-  let fin := run cfg s0 cs
-  " | ".intercalate (go s0 cs [snapshot s0 none]) ++
+      match xstep cfg xs c with
+      | none => go xs r ("ne" :: acc)
+      | some xs' => go xs' r (snapshot xs' (stepRet xs xs' c) :: acc)
+  let xs0 := xinitSetup cfg n
+  let (snaps, fin) := go xs0 cs [snapshot xs0 "-"]
+  " | ".intercalate snaps ++
+    s!" || sub={commaList (fin.base.submitted.map toString)} cb={commaList (fin.base.started.map fun p => s!"{p.1}:{p.2.data}")} " ++
+    s!"ret={commaList (fin.base.returned.map toString)} ev={commaList (fin.log.map showEvent)}"
+
+def parseEvent (t : String) : Option XEvent :=
+  let body := (t.drop 1).toString
+  let nums := (body.splitOn ":").mapM (·.toNat?)
+  if t.startsWith "P" then match nums with | some [i, p] => some (.setPtr i p) | _ => none
+  else if t.startsWith "E" then match nums with | some [w, p, d] => some (.enter w p d) | _ => none
+  else if t.startsWith "L" then match nums with | some [w] => some (.leave w) | _ => none
+  else if t.startsWith "O" then match nums with | some [d] => some (.oom d) | _ => none
+  else none
+
+def parseEvents (t : String) : Option (List XEvent) :=
+  if t = "-" then some [] else (t.splitOn ",").mapM parseEvent
+
+def parseRet (t : String) : Option Ret :=
+  if t = "destroyed" then some .destroyed
+  else if t = "deq:null" then some (.deq none)
+  else if t.startsWith "deq:" then (t.drop 4).toString.toNat?.map (fun d => .deq (some d))
+  else if t.startsWith "sub:" then (parseInt (t.drop 4).toString).map .submit
+  else if t.startsWith "st:" then (parseInt (t.drop 3).toString).map .status
+  else none
+
+
+/-! ### lock/unlock granularity (Model/C09PoolFine.lean) -/
+
+def showFW : FW → String
+  | .at pc => showW pc
+  | .locked l => "L:" ++ showW l.pc
+  | .unlocked (some it) => s!"U:{it.data}"
+  | .unlocked none => "U:null"
+
+def showFM : FM → String
+  | .at pc => showM pc
+  | .locked l => "L:" ++ showM l.pc
+  | .unlocked (.submit st) => s!"U:submit:{st}"
+  | .unlocked (.deq (some it)) => s!"U:deq:{it.data}"
+  | .unlocked (.deq none) => "U:deq:null"
+  | .unlocked (.status st) => s!"U:status:{st}"
+  | .unlocked .destroy => "U:destroy"
+
+def fsnapshot (fs : FState) (ret : String) : String :=
+  let ws := commaList (fs.fw.map showFW)
+  if fs.fm = .at .finished then
+    s!"destroyed m=finished w={ws} r={ret}"
+  else
+    s!"Q={showItems fs.queue} D={showItems fs.done} S={showItems fs.safeDone} nt={fs.nextTicket} nd={fs.nextDeq} " ++
+    s!"ic={fs.itemCount} st={fs.status} rec={fs.recycle} m={showFM fs.fm} w={ws} r={ret} mf={b01 (mutexFree fs)}"
+
+def frunScript (cfg : Cfg) (n : Nat) (cs : List Choice) : String :=
+  let rec go (fs : FState) (cs : List Choice) (acc : List String) : List String × FState :=
+    match cs with
+    | [] => (acc.reverse, fs)
+    | c :: r =>
+      match fstep cfg fs c with
+      | none => go fs r ("ne" :: acc)
+      | some fs' =>
+        let ret := if fs'.rets.length > fs.rets.length then
+            (match fs'.rets.getLast? with | some x => showRet x | none => "-") else "-"
+        go fs' r (fsnapshot fs' ret :: acc)
+  let fs0 := finit n
+  let (snaps, fin) := go fs0 cs [fsnapshot fs0 "-"]
+  " | ".intercalate snaps ++
     s!" || sub={commaList (fin.submitted.map toString)} cb={commaList (fin.started.map fun p => s!"{p.1}:{p.2.data}")} " ++
     s!"ret={commaList (fin.returned.map toString)}"
+
+def baseChoice? : XChoice → Option Choice
+  | .base c => some c
+  | _ => none
 
 def stepLine (line : String) : String :=
   match words line with
@@ -139,10 +261,25 @@ def stepLine (line : String) : String :=
             cs.mapM parseChoice with
       | some rep, some n, some tbl, some cs => runScript { repaired := rep, rcOf := rcFun tbl } n cs
       | _, _, _, _ => "bad-op"
+  | "frun" :: rep :: n :: rc :: cs =>
+      match (if rep = "0" then some false else if rep = "1" then some true else none), n.toNat?, parseRcSpec rc,
+            cs.mapM (fun t => (parseChoice t).bind baseChoice?) with
+      | some rep, some n, some tbl, some cs => frunScript { repaired := rep, rcOf := rcFun tbl } n cs
+      | _, _, _, _ => "bad-op"
   | "serial" :: rc :: ops =>
       match parseRcSpec rc, ops.mapM parseOp with
       | some tbl, some ops => commaList ((Serial.run (rcFun tbl) Serial.init ops).rets.map showRet)
       | _, _ => "bad-op"
+  | ["ctxmon", ev] =>
+      match parseEvents ev with
+      | some log => if !disciplineOk log then "undisciplined" else if exclusiveOk log then "ok" else "violated ctx"
+      | none => "bad-op"
+  | "apimon" :: rc :: rets :: ops =>
+      match parseRcSpec rc, (if rets = "-" then some [] else (rets.splitOn ",").mapM parseRet), ops.mapM parseOp with
+      | some tbl, some rets, some ops =>
+          if rets.length ≠ ops.length then "violated api (length)"
+          else if apiOk (rcFun tbl) (ops.zip rets) then "ok" else "violated api"
+      | _, _, _ => "bad-op"
   | ["monitor", sub, st, ret] =>
       match parseNatList sub, parseNatList st, parseNatList ret with
       | some sub, some st, some ret =>
@@ -160,22 +297,29 @@ structure EnumCfg where
   header : String
 
 /-- thread id: 0 = main, i+1 = worker i -/
-def choiceTid : Choice → Nat
-  | .main _ => 0
-  | .worker i _ => i + 1
+def choiceTid : XChoice → Nat
+  | .base (.worker i _) => i + 1
+  | _ => 0
 
-/-- strict choices available in `s` with the remaining API script `ops` -/
-def strictChoices (s : State) (ops : List Op) : List Choice :=
-  (match s.main, ops with
-   | .idle, o :: _ => [Choice.main (.call o)]
-   | _, _ => if mainContEnabled s then [Choice.main (.cont false)] else []) ++
-  ((List.range s.workers.length).filter (workerEnabled s)).map (fun i => Choice.worker i false)
+def isCall : XChoice → Bool
+  | .base (.main (.call _)) => true
+  | .setPtr _ _ => true
+  | .submitOom _ => true
+  | _ => false
 
-def spuriousChoices (s : State) : List Choice :=
-  (match s.main with | .deqWait false => [Choice.main (.cont true)] | _ => []) ++
-  ((List.range s.workers.length).filter (fun i => s.workers[i]? == some (.waitQ false))).map (fun i => Choice.worker i true)
+/-- strict choices available in `xs` with the remaining API script `ops` -/
+def strictChoices (xs : XState) (ops : List AOp) : List XChoice :=
+  (match decide (xs.base.main = .idle) && xs.setPtr.isNone, ops with
+   | true, o :: _ => [o.choice]
+   | _, _ => if xmainContEnabled xs then [XChoice.base (.main (.cont false))] else []) ++
+  ((List.range xs.base.workers.length).filter (workerEnabled xs.base)).map (fun i => XChoice.base (.worker i false))
 
-partial def dfs (e : EnumCfg) (out : IO.FS.Stream) (count : IO.Ref Nat) (s : State) (ops : List Op)
+def spuriousChoices (xs : XState) : List XChoice :=
+  (match xs.base.main with | .deqWait false => [XChoice.base (.main (.cont true))] | _ => []) ++
+  ((List.range xs.base.workers.length).filter (fun i => xs.base.workers[i]? == some (.waitQ false))).map
+    (fun i => XChoice.base (.worker i true))
+
+partial def dfs (e : EnumCfg) (out : IO.FS.Stream) (count : IO.Ref Nat) (s : XState) (ops : List AOp)
     (last : Option Nat) (pre spur : Nat) (path : List String) : IO Unit := do
   if (← count.get) ≥ e.maxPaths then return
   let sc := strictChoices s ops
@@ -191,22 +335,22 @@ partial def dfs (e : EnumCfg) (out : IO.FS.Stream) (count : IO.Ref Nat) (s : Sta
     return
   if cands.isEmpty then return
   for (c, pre', spur') in cands do
-    match step e.cfg s c with
+    match xstep e.cfg s c with
     | none => pure ()
     | some s' =>
-      let ops' := match c with | .main (.call _) => ops.drop 1 | _ => ops
+      let ops' := if isCall c then ops.drop 1 else ops
       dfs e out count s' ops' (some (choiceTid c)) pre' spur' (showChoice c :: path)
 
 def enumMain (args : List String) : IO Unit := do
   let out ← IO.getStdout
   match args with
   | rep :: n :: rc :: pre :: spur :: maxp :: ops =>
-    match n.toNat?, parseRcSpec rc, pre.toNat?, spur.toNat?, maxp.toNat?, ops.mapM parseOp with
+    match n.toNat?, parseRcSpec rc, pre.toNat?, spur.toNat?, maxp.toNat?, ops.mapM parseAOp with
     | some n, some tbl, some pre, some spur, some maxp, some ops =>
       let e : EnumCfg := { cfg := { repaired := rep == "1", rcOf := rcFun tbl }, maxPaths := maxp,
                            header := s!"run {rep} {n} {rc}" }
       let count ← IO.mkRef 0
-      dfs e out count (init n) ops none pre spur []
+      dfs e out count (xinitSetup e.cfg n) ops none pre spur []
       let c ← count.get
       out.putStrLn s!"#paths {c} {if c ≥ maxp then "truncated" else "complete"}"
     | _, _, _, _, _, _ => out.putStrLn "bad-op"
@@ -220,7 +364,7 @@ def pick {α : Type} (x : Nat) (l : List α) : Option α := l[(x / 4294967296) %
 
 /-- one random schedule: with probability `pSwitch`% pick any enabled thread, else keep running the last one
 while it is enabled; with probability `pSpur`% take a spurious wake-up when one is possible. -/
-def randPath (cfg : Cfg) (pSwitch pSpur : Nat) (fuel : Nat) (s : State) (ops : List Op) (last : Option Nat)
+def randPath (cfg : Cfg) (pSwitch pSpur : Nat) (fuel : Nat) (s : XState) (ops : List AOp) (last : Option Nat)
     (x : Nat) (acc : List String) : List String × Nat :=
   match fuel with
   | 0 => (acc.reverse, x)
@@ -230,7 +374,7 @@ def randPath (cfg : Cfg) (pSwitch pSpur : Nat) (fuel : Nat) (s : State) (ops : L
     let x1 := lcg x
     let x2 := lcg x1
     let x3 := lcg x2
-    let c? : Option Choice :=
+    let c? : Option XChoice :=
       if !sp.isEmpty && (x1 / 4294967296) % 100 < pSpur then pick x2 sp
       else if sc.isEmpty then none
       else
@@ -241,22 +385,22 @@ def randPath (cfg : Cfg) (pSwitch pSpur : Nat) (fuel : Nat) (s : State) (ops : L
     match c? with
     | none => (acc.reverse, x3)
     | some c =>
-      match step cfg s c with
+      match xstep cfg s c with
       | none => (acc.reverse, x3)
       | some s' =>
-        let ops' := match c with | .main (.call _) => ops.drop 1 | _ => ops
+        let ops' := if isCall c then ops.drop 1 else ops
         randPath cfg pSwitch pSpur fuel s' ops' (some (choiceTid c)) x3 (showChoice c :: acc)
 
 def randMain (args : List String) : IO Unit := do
   let out ← IO.getStdout
   match args with
   | rep :: n :: rc :: seed :: count :: psw :: psp :: ops =>
-    match n.toNat?, parseRcSpec rc, seed.toNat?, count.toNat?, psw.toNat?, psp.toNat?, ops.mapM parseOp with
+    match n.toNat?, parseRcSpec rc, seed.toNat?, count.toNat?, psw.toNat?, psp.toNat?, ops.mapM parseAOp with
     | some n, some tbl, some seed, some count, some psw, some psp, some ops =>
       let cfg : Cfg := { repaired := rep == "1", rcOf := rcFun tbl }
       let mut x := lcg (seed + 12345)
       for _ in [0:count] do
-        let (path, x') := randPath cfg psw psp 100000 (init n) ops none x []
+        let (path, x') := randPath cfg psw psp 100000 (xinitSetup cfg n) ops none x []
         x := x'
         out.putStrLn (s!"run {rep} {n} {rc} " ++ " ".intercalate path)
     | _, _, _, _, _, _, _ => out.putStrLn "bad-op"
